@@ -96,7 +96,7 @@ def gen_cases(tier, seed):
             if 'omitsize' not in kw and rng.random() < 0.2:
                 kw['unit'] = rng.choice(['mm', 'cm', 'px'])
             if rng.random() < 0.25:
-                kw['title'] = rng.choice(['QR code', 'a <b> & c', 'Tïtle ☃', 'x > y'])
+                kw['title'] = rng.choice(['QR code', 'a <b> & c', 'Tïtle ☃', 'x > y', 'Café Müller', 'ñandú'])
             if rng.random() < 0.2:
                 kw['desc'] = rng.choice(['desc', 'x & y < z'])
             if rng.random() < 0.2:
@@ -107,8 +107,8 @@ def gen_cases(tier, seed):
                 kw['lineclass'] = rng.choice(['line', 'x y'])
             if rng.random() < 0.15:
                 kw['svgversion'] = rng.choice([1.1, 2.0])
-            if rng.random() < 0.1:
-                kw['encoding'] = rng.choice(['utf-8', 'iso-8859-1']) if 'title' not in kw or '☃' not in kw['title'] else 'utf-8'
+            if rng.random() < 0.25:
+                kw['encoding'] = rng.choice(['utf-8', 'iso-8859-1', 'iso-8859-1', 'cp1252']) if 'title' not in kw or '☃' not in kw['title'] else 'utf-8'
             if rng.random() < 0.15:
                 kw['compresslevel_svgz'] = rng.randint(1, 9)
         content = gen.content_for_bits(rng.choice(['numeric', 'alphanumeric', 'byte']), rng.randint(1, 40))
@@ -122,6 +122,15 @@ def gen_cases(tier, seed):
         if rng.random() < 0.2:
             mk = {'micro': True}
             content = content[:4] if not content.isdigit() else content[:10]
+        # symbol options that the command line has to hand over as well (every mask value incl. 0)
+        if rng.random() < 0.5:
+            mk['mask'] = rng.randint(0, 3 if mk.get('micro') else 7)
+        if rng.random() < 0.2:
+            mk['boost_error'] = False
+        if rng.random() < 0.15 and not mk.get('micro'):
+            mk['mode'] = 'byte'
+        if rng.random() < 0.15:
+            mk['encoding'] = rng.choice(['utf-8', 'latin1'])
         cases.append({'kind': 'routes', 'out': kind, 'content': content, 'make': mk, 'kw': kw,
                       'subprocess': rng.random() < (0.12 if tier == 'quick' else 0.05)})
     for i in range(40 if tier == 'quick' else 400):
@@ -191,6 +200,7 @@ def cli_flags(kind, kw):
 
 
 def make_flags(mk, content):
+    """keyword arguments of segno.make -> command line flags (independent table)."""
     argv = []
     if mk.get('micro'):
         argv.append('--micro')
@@ -198,6 +208,14 @@ def make_flags(mk, content):
         argv.append('--error=%s' % mk['error'])
     if mk.get('version'):
         argv.append('--version=%s' % mk['version'])
+    if mk.get('mask') is not None:
+        argv.append('--pattern=%d' % mk['mask'])
+    if mk.get('mode'):
+        argv.append('--mode=%s' % mk['mode'])
+    if mk.get('boost_error') is False:
+        argv.append('--no-error-boost')
+    if mk.get('encoding'):
+        argv.append('--encoding=%s' % mk['encoding'])
     return argv
 
 
